@@ -9,7 +9,8 @@ L2 (correspondence, every run):
     `Space.deactivate_inactive_dimensions`) on generated transformed rows (inside, on and far
     outside the bounds) against `Model/Membership.lean`'s `fin`;
   * `cs`: `memSpace` (activity, canonical inactive values, forbidden clauses) against
-    ConfigSpace's own validation on sampled and mutated configurations.
+    ConfigSpace's own validation on sampled and mutated configurations;
+  * `fill`: `RandomSearch.ask` against `fillInactive` on the observed ConfigSpace samples.
 L3 (oracle on the real code): every proposal of every search class (exact Python kind + value)
   goes to Lean's `memSpace`/`checkXInSpace`; every setup/ask/tell must succeed; job parameters
   seen by the run-function of `search()` are checked the same way.
@@ -98,61 +99,11 @@ def gen_cells(ck):
 # --------------------------------------------------------------------------- workers
 
 
-def _worker(args):
-    """run one cell against the real code (in a worker process); returns a JSON-able record"""
-    from threadpoolctl import threadpool_limits
-
-    with threadpool_limits(limits=1):  # OpenMP/BLAS pools make tiny fits 100x slower when oversubscribed
-        return _worker1(args)
-
-
-def _worker1(args):
-    import time
-
-    t0 = time.time()
-    rec = _worker2(args)
-    rec["secs"] = round(time.time() - t0, 2)
-    return rec
-
-
-def _worker2(args):
-    cell, spec, script, mode = args
-    ac.quiet()
-    if mode == "search":
-        objs = [o for st in script for o in st["objs"]] or [0.0]
-        out = ac.run_search_loop(cell, spec, max_evals=min(12, 2 + sum(st["n"] for st in script) // 2), objs=objs)
-        names = out["names"] or []
-        rec = {"mode": "search", "names": names, "error": out["error"], "not_accepted": out["not_accepted"],
-               "rounds": [{"n": len(out["seen"]), "askDraws": [], "X": [[d.get(nm) for nm in names] for d in out["seen"]],
-                           "X_dicts_ok": all(sorted(d) == sorted(names) for d in out["seen"]),
-                           "hasTell": False, "results": [], "tellDraws": []}] if out["seen"] else []}
-        problem = ac.build_problem(spec)
-    else:
-        rec = ac.run_session(cell, spec, script)
-        rec["mode"] = "asktell"
-        problem = rec.pop("problem", None) or ac.build_problem(spec)
-    surrogate = cell.get("surrogate") if cell["search"] == "CBO" else ("DUMMY" if cell["search"] == "EDS" else None)
-    try:
-        rec["decl"] = ac.decl_of(spec, problem, surrogate)
-    except Exception as e:  # unknown surrogate names never get here (constructor rejects first)
-        rec["decl"] = ac.decl_of(spec, problem, None)
-        rec["decl_note"] = f"{type(e).__name__}: {e}"
-    rec.pop("problem", None)
-    # make everything JSON-able / picklable
-    for r in rec["rounds"]:
-        r["X"] = [[ac.plain(v) for v in x] for x in r["X"]]
-        r["askDraws"] = [[[ac.plain(v) for v in c] for c in d] for d in r["askDraws"]]
-        r["tellDraws"] = [[[ac.plain(v) for v in c] for c in d] for d in r["tellDraws"]]
-        r["results"] = [([ac.plain(v) for v in x], o) for x, o in r["results"]]
-    return rec
+_worker = ac.run_cell
 
 
 def _run_cells(ck, cells):
-    workers = int(os.environ.get("VERIF_WORKERS", "0") or 0) or ck.pick(8, 14)
-    if workers <= 1 or len(cells) <= 2:
-        return [_worker(c) for c in cells]
-    with cf.ProcessPoolExecutor(max_workers=workers) as ex:
-        return list(ex.map(_worker, cells, chunksize=max(1, len(cells) // (workers * 6))))
+    return ac.run_cells(ck, cells)
 
 
 # --------------------------------------------------------------------------- oracle
@@ -228,18 +179,19 @@ def _mini_driver():
 
 
 def _shrink_job(args):
-    key, cell, spec, script, mode = args
+    key, c = args
     from . import common
 
     common.use_repo_sources()
     pred = _same_failure(key)
-    c2, s2, sc2 = ac.shrink_case(cell, spec, script, lambda c, s, sc: pred(c, s, sc, mode), budget=10)
-    return key, c2, s2, sc2
+    mode = c["mode"]
+    c2, s2, sc2 = ac.shrink_case(c["cell"], c["spec"], c["script"], lambda ce, sp, sc: pred(ce, sp, sc, mode), budget=12)
+    return ac.requirements(c2, s2), {"cell": c2, "spec": s2, "script": sc2, "mode": mode}
 
 
-def _fingerprint(key, cell, spec):
+def _fingerprint(key, req):
     clause, site = key.split("|", 1)
-    return f"{PROP}|{clause}|{site}|{ac.option_tags(cell, spec)}"
+    return f"{PROP}|{clause}|{site}|{ac.req_tags(req)}"
 
 
 # --------------------------------------------------------------------------- L2: fin
@@ -416,6 +368,59 @@ def _cs_cases(ck, d):
                 ck.mismatch(case, {"memSpace": res["mem"], "why": res["why"], "act": act, "configspace": ok_py, "py_why": why})
 
 
+def _fill_cases(ck, d):
+    """RandomSearch.ask against `fillInactive`: the raw ConfigSpace samples are observed by
+    wrapping `ConfigurationSpace.sample_configuration` from outside."""
+    import tempfile
+
+    import ConfigSpace as CS
+
+    from deephyper.evaluator import Evaluator
+    from deephyper.hpo import RandomSearch
+
+    rng = ck.rng
+    for s in range(ck.pick(16, 120)):
+        spec = ac.gen_spec(rng, constrained=rng.random() < 0.8)
+        problem = ac.build_problem(spec)
+        names = list(problem.hyperparameter_names)
+        decl = ac.decl_of(spec, problem, None)
+        seen = []
+        orig = CS.ConfigurationSpace.sample_configuration
+
+        def spy(self_, size=None):
+            out = orig(self_, size)
+            seen.extend(out if isinstance(out, list) else [out])
+            return out
+
+        tmp = tempfile.mkdtemp(prefix="g5_")
+        try:
+            CS.ConfigurationSpace.sample_configuration = spy
+            search = RandomSearch(problem, Evaluator.create(ac._run_dummy, method="serial"),
+                                  random_state=rng.randint(0, 10**6), log_dir=tmp)
+            X = search.ask(rng.randint(2, 6))
+        except Exception as e:
+            ck.fail(f"{PROP}|raises:{type(e).__name__}|ask|{ac.exc_site(e)}|search=Random", f"RandomSearch.ask raised {type(e).__name__}",
+                    {"cell": {"search": "Random", "seed": 0, "n_initial": 1, "n_points": 1}, "spec": spec,
+                     "script": [{"n": 3, "objs": [0.0], "tell": [True]}], "mode": "asktell"}, repr(e))
+            continue
+        finally:
+            CS.ConfigurationSpace.sample_configuration = orig
+            import shutil
+
+            shutil.rmtree(tmp, ignore_errors=True)
+        if len(seen) != len(X):
+            raise HarnessError(f"observed {len(seen)} ConfigSpace samples for {len(X)} proposals")
+        samples = [[ac.enc(ac.plain(dict(c)[n])) if n in dict(c) else None for n in names] for c in seen]
+        rep = d.ask({"op": "fill", "decl": decl, "samples": samples})
+        for c, x, m in zip(seen, X, rep["res"]):
+            case = {"kind": "fill", "spec": spec, "sample": {k: ac.plain(v) for k, v in dict(c).items()}}
+            ck.case(case, nontrivial=len(dict(c)) < len(names))
+            ck.count("fill:" + ("has-inactive" if len(dict(c)) < len(names) else "all-active"))
+            real = ac.enc_cfg([x[n] for n in names])
+            if m != real:
+                ck.mismatch(case, {"impl": real, "model": m})
+
+
 # --------------------------------------------------------------------------- run
 
 
@@ -457,11 +462,17 @@ def _process(ck, d, cells, recs, reqs_meta):
             continue
         for k, f in enumerate(_judge(ck, d, cell, spec, script, mode, rec)):
             key, what, detail = f
-            prov.setdefault(key, {"what": what, "detail": detail, "case": (cell, spec, script, mode), "count": 0})
-            prov[key]["count"] += 1
+            prov.setdefault(key, []).append({"what": what, "detail": detail, "cell": cell, "spec": spec,
+                                             "script": script, "mode": mode})
         if mode == "asktell" and cell["search"] in ("CBO", "EDS") and rec["rounds"]:
-            sess_reqs.append(ac.session_request(cell, rec["decl"], rec))
-            sess_meta.append((case, rec))
+            biggest = max([len(dr) for r in rec["rounds"] for dr in r["askDraws"] + r["tellDraws"]] or [0])
+            if biggest > 256:
+                # ExperimentalDesignSearch cannot set the number of candidates (10 000 per draw):
+                # too large for the interpreted model; membership (L3) is still checked
+                ck.count("session:skipped-large-draws")
+            else:
+                sess_reqs.append(ac.session_request(cell, rec["decl"], rec))
+                sess_meta.append((case, rec))
     reps = d.ask_all(sess_reqs)
     for (case, rec), rep in zip(sess_meta, reps):
         for p in rep["paths"]:
@@ -504,22 +515,15 @@ def run(ck):
         prov = _process(ck, d, cells, recs, None)
         _fin_cases(ck, d)
         _cs_cases(ck, d)
+        _fill_cases(ck, d)
     ck.count("corpus_cases", n_corpus)
-    # fingerprints from shrunk cases (one shrink per provisional failure class)
-    jobs = [(key, *v["case"]) for key, v in prov.items()]
-    shrunk = {}
-    if jobs:
-        with cf.ProcessPoolExecutor(max_workers=min(len(jobs), ck.pick(8, 12))) as ex:
-            for key, c2, s2, sc2 in ex.map(_shrink_job, jobs):
-                shrunk[key] = (c2, s2, sc2)
-    for key, v in prov.items():
-        c2, s2, sc2 = shrunk.get(key, v["case"][:3])
-        mode = v["case"][3]
-        fp = _fingerprint(key, c2, s2)
-        case = ac.cell_public(c2, s2, sc2)
-        case["mode"] = mode
-        for _ in range(v["count"]):
-            ck.fail(fp, v["what"], case, v["detail"])
+    # fingerprints: minimal option values / input class, from shrunk cases
+    for key, req, shrunk, explained in ac.fingerprint_groups(prov, _shrink_job, max_workers=ck.pick(8, 12)):
+        fp = _fingerprint(key, req)
+        case = ac.cell_public(shrunk["cell"], shrunk["spec"], shrunk["script"])
+        case["mode"] = shrunk["mode"]
+        for c in explained:
+            ck.fail(fp, explained[0]["what"], case, explained[0]["detail"])
 
 
 def replay(ck, case):
@@ -530,7 +534,7 @@ def replay(ck, case):
                                  "proposals": [r["X"] for r in rec["rounds"]]}, default=str)[:3000])
     with ck.driver() as d:
         for key, what, detail in _judge(ck, d, cell, spec, script, mode, rec):
-            ck.fail(_fingerprint(key, cell, spec), what, case, detail)
+            ck.fail(_fingerprint(key, ac.requirements(cell, spec)), what, case, detail)
         if mode == "asktell" and cell["search"] in ("CBO", "EDS") and rec["rounds"] and not rec["not_accepted"]:
             rep = d.ask(ac.session_request(cell, rec["decl"], rec))
             print("replay: model session:", {k: rep[k] for k in ("mismatch", "replayed", "paths")})
